@@ -203,6 +203,14 @@ func Replay(c *core.Ctx, lines []string) {
 				panic(err)
 			}
 			reqs = append(reqs, request{op: "wb", format: f[1], input: []byte(in)})
+		case f[0] == "C02.clifile" && len(f) >= 4:
+			in, err := core.Unescape(f[3])
+			if err != nil {
+				panic(err)
+			}
+			if c.Gotree != "" {
+				doCLIFile(c, f[1], f[2], []byte(in))
+			}
 		case f[0] == "C02.cli" && len(f) >= 3:
 			in, err := core.Unescape(f[2])
 			if err != nil {
@@ -322,6 +330,18 @@ func Run(c *core.Ctx) {
 			}
 		}
 	}
+	// the file-level glue through the binary: names that lead nowhere, to a directory, to an empty / one-byte file,
+	// with and without the .gz suffix
+	if c.Gotree != "" {
+		for i, k := range []string{"missing", "missinggz", "dir", "dirgz", "empty", "emptygz", "onebyte", "onebytegz", "notgz", "plain"} {
+			for _, f := range []string{"newick", "nexus", "phyloxml", "nextstrain"} {
+				if c.Quick() && (i+len(f))%2 == 1 {
+					continue
+				}
+				doCLIFile(c, f, k, genCase(c.G, map[string]string{"newick": "multi"}[f]+map[string]string{"nexus": "nexusm", "phyloxml": "phyloxmlm", "nextstrain": "nextstrainm"}[f], 5000+i).input)
+			}
+		}
+	}
 	// the byte decoder of the models against Go's (bufio.ReadRune = utf8.DecodeRune)
 	nu := c.Scale(150, 5000)
 	for i := 0; i < nu; i++ {
@@ -333,15 +353,26 @@ func Run(c *core.Ctx) {
 	// fileutils.Readln in the callers' loop, with small ReadLine buffers
 	nr := c.Scale(60, 2000)
 	for i := 0; i < nr; i++ {
-		emitReadln(c, 16+c.G.Intn(3)*5, genLinesDoc(c.G))
+		bs := 16 + c.G.Intn(3)*5
+		doc := genLinesDoc(c.G)
+		if c.G.Chance(0.35) {
+			// an unterminated last line of exactly 1..3 buffers (34f70d2: it arrives together with the end of the input)
+			for k := 0; k < bs*(1+c.G.Intn(3)); k++ {
+				doc = append(doc, "ab ;\t,"[c.G.Intn(6)])
+			}
+			if c.G.Chance(0.15) {
+				doc = append(doc, 'x') // … and one byte more
+			}
+		}
+		emitReadln(c, bs, doc)
 	}
 	// file-level entry points (utils.ReadTree, GetReader + ReadMultiTrees): plain, gzip (sound, truncated,
 	// corrupted, not gzip at all) and missing files
-	nf := c.Scale(10, 250)
+	nf := c.Scale(16, 300)
 	for _, f := range Formats {
 		for i := 0; i < nf; i++ {
 			r := genCase(c.G, f, 2000+i)
-			mode := []string{"plain", "gz", "gz", "gztrunc", "gzflip", "notgz", "missing"}[c.G.Intn(7)]
+			mode := []string{"plain", "gz", "gz", "gztrunc", "gzflip", "notgz", "missing", "missinggz", "empty", "onebyte", "dir", "dirgz", "emptygz", "onebytegz"}[c.G.Intn(14)]
 			reqs = append(reqs, request{op: "file", kind: mode, format: f, input: r.input})
 		}
 	}
@@ -1284,6 +1315,52 @@ func doCLI(c *core.Ctx, format string, input []byte) {
 	cliQ = append(cliQ, cliJob{args, stdin, func(r core.CLIResult) {
 		nl := strings.Count(r.Stdout, "\n")
 		c.Emit("C02.cli", format, core.Escape(string(input)), cliOutcome(r), strconv.Itoa(nl), transport, dec)
+	}})
+}
+
+// doCLIFile: `gotree reformat newick --format f -i <name>` where the name is of the given kind.
+//
+//	C02.clifile <format> <kind> <input> <outcome> <decoded>
+func doCLIFile(c *core.Ctx, format, kind string, input []byte) {
+	base := c.TmpFile("")
+	os.Remove(base)
+	content := input
+	path := base
+	switch kind {
+	case "missing":
+	case "missinggz":
+		path += ".gz"
+	case "dir", "dirgz":
+		if kind == "dirgz" {
+			path += ".gz"
+		}
+		os.Mkdir(path, 0755)
+	case "empty", "emptygz", "onebyte", "onebytegz", "notgz", "plain":
+		switch kind {
+		case "empty", "emptygz":
+			content = nil
+		case "onebyte":
+			content = []byte("(")
+		case "onebytegz":
+			content = []byte{0x1f}
+		}
+		if strings.HasSuffix(kind, "gz") {
+			path += ".gz"
+		}
+		if err := os.WriteFile(path, content, 0644); err != nil {
+			panic(err)
+		}
+	}
+	if kind == "missing" || kind == "missinggz" || kind == "dir" || kind == "dirgz" {
+		content = nil
+	}
+	dec := ""
+	if p, _ := core.Safe(func() { dec = decoded(map[string]string{"phyloxml": "phyloxml", "nextstrain": "nextstrain"}[format], content) }); p {
+		dec = ""
+	}
+	in := core.Escape(string(content))
+	cliQ = append(cliQ, cliJob{[]string{"reformat", "newick", "--format", format, "-i", path}, "", func(r core.CLIResult) {
+		c.Emit("C02.clifile", format, kind, in, cliOutcome(r), dec)
 	}})
 }
 
